@@ -263,8 +263,13 @@ func (cl *Cluster) Concrete(c string, i int, r AbsReq) []byte {
 }
 
 // Dial connects a new client to the proxy, optionally from a given source IP.
-func DialClient(name, proxyAddr, src string) (*Client, error) {
+func DialClient(name, proxyAddr, src string, smallBuf bool) (*Client, error) {
 	d := net.Dialer{}
+	if smallBuf {
+		d.Control = func(network, address string, c syscall.RawConn) error {
+			return c.Control(func(fd uintptr) { _ = unix.SetsockoptInt(int(fd), unix.SOL_SOCKET, unix.SO_RCVBUF, 8192) })
+		}
+	}
 	if src != "" {
 		d.LocalAddr = &net.TCPAddr{IP: net.ParseIP(src)}
 	}
@@ -288,15 +293,30 @@ func (c *Client) Write(b []byte) error {
 
 // Drain reads whatever has arrived without blocking, parses complete replies and logs them.
 func (c *Client) Drain(cl *Cluster, log *EventLog, rawLog bool) {
-	if c.Closed || c.PeerEOF || c.Paused {
+	if c.Paused {
+		return
+	}
+	c.DrainMax(cl, log, rawLog, -1)
+}
+
+// DrainMax reads at most max bytes (max < 0: everything available).
+func (c *Client) DrainMax(cl *Cluster, log *EventLog, rawLog bool, max int) {
+	if c.Closed || c.PeerEOF {
 		return
 	}
 	tmp := make([]byte, 65536)
 	_ = c.rc.Control(func(fd uintptr) {
-		for {
-			n, err := unix.Read(int(fd), tmp)
+		for max != 0 {
+			b := tmp
+			if max > 0 && max < len(b) {
+				b = tmp[:max]
+			}
+			n, err := unix.Read(int(fd), b)
 			if n > 0 {
-				c.buf = append(c.buf, tmp[:n]...)
+				c.buf = append(c.buf, b[:n]...)
+				if max > 0 {
+					max -= n
+				}
 				continue
 			}
 			if err == unix.EAGAIN {
